@@ -41,8 +41,16 @@ Fixpoint subsets (l : list (list byte)) : list (list (list byte)) :=
   | [] => [[]]
   | x :: tl => let r := subsets tl in r ++ map (cons x) r
   end.
+(** what the code's map of enabled features answers for a key *)
 Definition env_of (enabled : list (list byte)) : env := fun id => existsb (bytes_eqb id) enabled.
 Definition envs (feats : list (list byte)) : list env := map env_of (subsets feats).
+(** specification side: an identifier-ref [prefix:]name denotes the feature called name *)
+Definition spec_local (id : list byte) : list byte :=
+  rev ((fix upto (l : list byte) : list byte :=
+          match l with [] => [] | b :: tl => if beq b x3a then [] else b :: upto tl end) (rev id)).
+Definition spec_env_of (enabled : list (list byte)) : env :=
+  fun id => existsb (bytes_eqb (spec_local id)) enabled.
+Definition spec_envs (feats : list (list byte)) : list env := map spec_env_of (subsets feats).
 
 (** tokens as text *)
 Definition tok_bytes (t : tok) : list byte :=
@@ -111,22 +119,22 @@ Definition classify (c : case) : verdict :=
       let es := envs feats in
       classify_gen (bytes_eqb text (w0 ++ render c ++ w1) && wf c && all_ws w0 && all_ws w1
                     && zlist_eqb (model_codes text es) obs)
-                   (zlist_eqb (denote_codes (abstract c) es) obs) None
+                   (zlist_eqb (denote_codes (abstract c) (spec_envs feats)) obs) None
   | CTokAll n obs =>
       let es := envs abc in
       let seqs := all_seqs n in
       let o := unpack obs (length seqs * 8) in
       classify_gen (zlist_eqb (flat_map (fun ts => model_codes (spell ts) es) seqs) o)
-                   (zlist_eqb (flat_map (fun ts => spec_tok_codes ts es) seqs) o) None
+                   (zlist_eqb (flat_map (fun ts => spec_tok_codes ts (spec_envs abc)) seqs) o) None
   | CTokList zs obs =>
       let es := envs abc in
       let seqs := map seq_of zs in
       let o := unpack obs (length seqs * 8) in
       classify_gen (zlist_eqb (flat_map (fun ts => model_codes (spell ts) es) seqs) o)
-                   (zlist_eqb (flat_map (fun ts => spec_tok_codes ts es) seqs) o) None
+                   (zlist_eqb (flat_map (fun ts => spec_tok_codes ts (spec_envs abc)) seqs) o) None
   | CText text feats obs =>
       let es := envs feats in
       classify_gen (zlist_eqb (model_codes text es) obs)
-                   (zlist_eqb (spec_text_codes text es) obs)
+                   (zlist_eqb (spec_text_codes text (spec_envs feats)) obs)
                    (if kf_touch text es then Some 1 else None)
   end.
